@@ -122,6 +122,12 @@ def unit_anysize(model, n):
     return anysize.c02(model, n)
 
 
+def unit_anysize_rate(model, n, vec, limit, use_t):
+    """the real rate() on n teams of every size (anysize.rate_units)"""
+    from . import anysize
+    return anysize.rate_units("C02", model, n, vec, limit, use_t)
+
+
 def units(tier):
     sizes = SIZES_QUICK if tier == "quick" else SIZES_THOROUGH
     us = [("unit_unwind", (n,)) for n in ((2, 3, 4, 5) if tier == "quick" else (2, 3, 4, 5, 6, 7))]
@@ -134,6 +140,9 @@ def units(tier):
                     if len(s) >= 5 and (vec == "scores" or limit):
                         continue
                     us.append(("unit", (m, s, vec, limit)))
+    for m in extract.MODELS:
+        for a in ([(2, 'ranks', False, False), (3, 'scores', False, False), (2, 'none', True, False)] if tier == "quick" else [(2, 'ranks', False, True), (2, 'scores', True, False), (3, 'none', False, False), (3, 'ranks', False, True), (3, 'scores', False, False), (2, 'none', True, True), (4, 'ranks', False, False)]):
+            us.append(("unit_anysize_rate", (m,) + a))
     return us
 
 
@@ -156,5 +165,5 @@ def main(tier, seed):
         ],
         explanation=("The real rate() of each model runs on symbolic games with symbolic rank or score vectors (value and int/float/bool kind); for every feasible outcome of the sort (every weak order) the result is checked structurally on the actual heap: same shape, result[i][j] *is* the object passed at teams[i][j] "
                      "with its id and name objects untouched, no object twice, input lists untouched; plus _unwind's contract (stable sorting permutation; unwinding with the recorded tenet is the inverse). Complete per shape, bounded over shapes."),
-        shapes=[str(s) for s in sizes] + ["_compute: n = 2..4 quick / 2..7 thorough teams of every size (rows-are-the-input-teams)"],
+        shapes=[str(s) for s in sizes] + ["_compute: n = 2..4 quick / 2..7 thorough teams of every size (rows-are-the-input-teams)", "rate(): n = 2, 3 quick / 2..4 thorough teams of every size, symbolic ranks / scores / none (every weak order a path)"],
     )
